@@ -45,7 +45,8 @@ NoColl == [kind |-> "none"]
 EmptyWorld ==
     [phase |-> "steady", fatal |-> "", gone |-> FALSE, sealed |-> FALSE, out |-> <<>>,
      slots |-> <<>>, close |-> [code |-> 0, text |-> ""], blk |-> "",
-     hs |-> [x \in {"conn"} |-> [ch |-> 0, pend |-> <<>>, dead |-> FALSE, repq |-> <<>>, tx |-> TRUE]],
+     hs |-> [x \in {"conn"} |-> [ch |-> 0, pend |-> <<>>, dead |-> FALSE, repq |-> <<>>, tx |-> TRUE,
+                                  unsure |-> FALSE]],
      cq |-> <<>>, lq |-> <<>>, srvq |-> <<>>]
 
 -----------------------------------------------------------------------------
@@ -94,12 +95,18 @@ PushRep(w, h, rep) ==
     ELSE IF Len(w.hs[h].repq) >= 2 THEN Fatal(w, "FrameUnexpected")
     ELSE [w EXCEPT !.hs[h].repq = Append(@, rep)]
 
+\* (a consumer queue whose receiving end is gone makes the send fail: EventLoopClientDropped)
+RxGone(w, c) == Has(w.cq, c) /\ "rx" \in DOMAIN w.cq[c] /\ ~w.cq[c].rx
+
 PushCons(w, c, msg) ==
-    IF w.fatal # "" \/ ~Has(w.cq, c) THEN w ELSE [w EXCEPT !.cq[c].q = Append(@, msg)]
+    IF w.fatal # "" \/ ~Has(w.cq, c) THEN w
+    ELSE IF RxGone(w, c) THEN Fatal(w, "EventLoopClientDropped")
+    ELSE [w EXCEPT !.cq[c].q = Append(@, msg)]
 
 \* terminal message: the sender is dropped right after it
 EndCons(w, c, msg) ==
     IF w.fatal # "" \/ ~Has(w.cq, c) THEN w
+    ELSE IF RxGone(w, c) THEN Fatal(w, "EventLoopClientDropped")
     ELSE [w EXCEPT !.cq[c].q = Append(@, msg), !.cq[c].tx = FALSE]
 
 RECURSIVE EndAllCons(_, _, _)
@@ -128,21 +135,51 @@ RemoveSlot(w, n, rep, cmsg) ==
     LET slot == w.slots[n]
         h == slot.h
         w1 == PushRep(w, h, rep)
+        someGone == \E c \in ConsOf(slot) : RxGone(w, c)
         w2 == IF w1.fatal # "" THEN w1
               ELSE IF "noterminal" \in Bug
                    THEN [w1 EXCEPT !.cq = [c \in DOMAIN w1.cq |->
                                              IF c \in ConsOf(slot) THEN [w1.cq[c] EXCEPT !.tx = FALSE] ELSE w1.cq[c]]]
+                   ELSE IF someGone
+                   THEN \* which consumers were told before the failing send depends on the map's order
+                        Fatal([w1 EXCEPT !.cq = [c \in DOMAIN w1.cq |->
+                                     IF c \in ConsOf(slot) THEN [w1.cq[c] EXCEPT !.tx = FALSE, !.unsure = TRUE]
+                                     ELSE w1.cq[c]]], "EventLoopClientDropped")
                    ELSE EndAllCons(w1, ConsOf(slot), cmsg)
     IN IF w2.fatal # "" THEN w2
        ELSE DropSenders(DropListeners([w2 EXCEPT !.slots = Del(@, n),
                                       !.hs[h].dead = TRUE, !.hs[h].tx = FALSE, !.hs[h].pend = <<>>], slot),
                         PendListeners(w.hs[h].pend))
 
-RECURSIVE RemoveAllSlots(_, _, _, _)
-RemoveAllSlots(w, ids, rep, cmsg) ==
+RECURSIVE RemoveSlots(_, _, _, _)
+RemoveSlots(w, ids, rep, cmsg) ==
     IF ids = {} \/ w.fatal # "" THEN w
     ELSE LET n == CHOOSE x \in ids : TRUE
-         IN RemoveAllSlots(RemoveSlot(w, n, rep, cmsg), ids \ {n}, rep, cmsg)
+         IN RemoveSlots(RemoveSlot(w, n, rep, cmsg), ids \ {n}, rep, cmsg)
+
+\* chan_slots.drain() on a connection close.  If some channel's reply queue is full the drain
+\* stops there with FrameUnexpected; the remaining slots are dropped without being told.  Which
+\* channels were told before that depends on the map's iteration order, so the model only knows
+\* that every slot is gone and marks the affected queues "unsure" (their contents are not judged).
+RemoveAllSlots(w, ids, rep, cmsg) ==
+    IF \A n \in ids : Len(w.hs[w.slots[n].h].repq) < 2 /\ \A c \in ConsOf(w.slots[n]) : ~RxGone(w, c)
+    THEN RemoveSlots(w, ids, rep, cmsg)
+    ELSE LET hsT == {w.slots[n].h : n \in ids}
+             csT == UNION {ConsOf(w.slots[n]) : n \in ids}
+             lsT == UNION {({w.slots[n].ret, w.slots[n].conf} \ {""}) \cup PendListeners(w.hs[w.slots[n].h].pend)
+                           : n \in ids}
+             w1 == [w EXCEPT !.slots = <<>>,
+                             !.hs = [h \in DOMAIN w.hs |->
+                                        IF h \in hsT THEN [w.hs[h] EXCEPT !.dead = TRUE, !.tx = FALSE, !.pend = <<>>,
+                                                                          !.unsure = TRUE]
+                                        ELSE w.hs[h]],
+                             !.cq = [c \in DOMAIN w.cq |->
+                                        IF c \in csT THEN [w.cq[c] EXCEPT !.tx = FALSE, !.unsure = TRUE] ELSE w.cq[c]]]
+         IN \* once the connection is in its final state the error is not reported any more
+            IF w.phase = "cliclosed" THEN DropSenders(w1, lsT)
+            ELSE Fatal(DropSenders(w1, lsT),
+                       IF \E n \in ids : Len(w.hs[w.slots[n].h].repq) >= 2 THEN "FrameUnexpected"
+                       ELSE "EventLoopClientDropped")
 
 -----------------------------------------------------------------------------
 \* Content collector (src/io_loop/content_collector.rs)
@@ -151,9 +188,12 @@ CollStart(w, n, kind, f) ==
     IF w.slots[n].coll.kind # "none" THEN Fatal(w, "FrameUnexpected")
     ELSE [w EXCEPT !.slots[n].coll = [kind |-> kind, st |-> "start", meth |-> f]]
 
+\* announced body size (traces carry it clamped to 2*10^9+1 as `bsz`: TLC integers are 32 bit)
+Size(hdr) == IF "bsz" \in DOMAIN hdr THEN hdr.bsz ELSE hdr.body_size
+
 Message(coll, hdr, mids) ==
     [kind |-> coll.kind, meth |-> coll.meth, props |-> hdr.props,
-     size |-> hdr.body_size,
+     size |-> Size(hdr),
      \* all frames of the message belong to the same server message id (else -2)
      mid |-> IF mids \cup {Field(coll.meth, "mid", -1)} \subseteq {Field(hdr, "mid", -1)}
              THEN Field(hdr, "mid", -1) ELSE -2]
@@ -174,7 +214,7 @@ Deliver(w, n, msg) ==
 CollHeader(w, n, f) ==
     LET coll == w.slots[n].coll IN
     IF coll.kind = "none" \/ coll.st # "start" THEN Fatal(w, "FrameUnexpected")
-    ELSE IF f.body_size = 0
+    ELSE IF Size(f) = 0
          THEN Deliver([w EXCEPT !.slots[n].coll = NoColl], n, Message(coll, f, {}))
          ELSE [w EXCEPT !.slots[n].coll = [coll EXCEPT !.st = "body"] @@ [hdr |-> f, got |-> 0, mids |-> {}]]
 
@@ -183,9 +223,9 @@ CollBody(w, n, f) ==
     IF coll.kind = "none" \/ coll.st # "body" THEN Fatal(w, "FrameUnexpected")
     ELSE LET got == coll.got + f.size
              mids == coll.mids \cup {Field(f, "mid", -1)}
-         IN IF got = coll.hdr.body_size
+         IN IF got = Size(coll.hdr)
             THEN Deliver([w EXCEPT !.slots[n].coll = NoColl], n, Message(coll, coll.hdr, mids))
-            ELSE IF got < coll.hdr.body_size
+            ELSE IF got < Size(coll.hdr)
                  THEN [w EXCEPT !.slots[n].coll = [coll EXCEPT !.got = got, !.mids = mids]]
                  ELSE Fatal(w, "FrameUnexpected")
 
@@ -273,7 +313,7 @@ Dispatch(w, f) ==
             ELSE \* the consumer's queue is created here and travels to the caller in the reply
                  LET c == Field(f, "cname", f.consumer_tag)
                      w1 == [w EXCEPT !.slots[n].cons = Put(@, f.consumer_tag, c),
-                                     !.cq = Put(@, c, [q |-> <<>>, tx |-> TRUE])]
+                                     !.cq = Put(@, c, [q |-> <<>>, tx |-> TRUE, unsure |-> FALSE, rx |-> TRUE])]
                  IN PushRep(w1, w.slots[n].h, OkRep(f))
       [] f.type = "method" /\ n # 0 /\ f.m = "basic.cancel" ->
             IF ~open THEN Bogus(w)
@@ -351,7 +391,8 @@ Pull(w, ch) ==
 \* Inner::allocate_channel succeeded with id n for the handle named h
 Alloc(w, n, h) ==
     [w EXCEPT !.slots = Put(@, n, [h |-> h, coll |-> NoColl, cons |-> <<>>, ret |-> "", conf |-> ""]),
-              !.hs = Put(@, h, [ch |-> n, pend |-> <<>>, dead |-> FALSE, repq |-> <<>>, tx |-> TRUE])]
+              !.hs = Put(@, h, [ch |-> n, pend |-> <<>>, dead |-> FALSE, repq |-> <<>>, tx |-> TRUE,
+                                unsure |-> FALSE])]
 
 \* handle_set_blocked_tx
 SetBlocked(w, l) ==
